@@ -130,6 +130,8 @@ class Tree:
                         self.inlined[rel] = n
             canon.normalise_calls({rel: mod.tree for rel, mod in self.modules.items()})
             for rel, mod in self.modules.items():
+                if canon.minmax_module(mod.tree):
+                    set_parents(mod.tree)
                 canon.normalise_module(mod.tree)
                 got = canon.apply_to_module(mod.tree, ref.get(rel))
                 if got:
